@@ -132,11 +132,13 @@ def _interp(ctx):
     reps = ctx.pick(1, 40)
     k = 0
     for rep in range(reps):
-        for (method, nv, order) in combos:
+        for icombo, (method, nv, order) in enumerate(combos):
             for data in ("power-law", "generic", "poly"):
                 k += 1
                 case_id = f"{method}-o{order}-nv{nv}-{data}-{rep}"
-                if not ctx.mine(k, case_id):
+                # all cases of one (method, #volumes, order) run in the same process, one after the other, on different
+                # volume sets: state kept between calls (caches keyed too coarsely) then shows up as a wrong interpolant
+                if not ctx.mine(icombo, case_id):
                     continue
                 rng = ctx.rng("interp", method, nv, order, data, rep)
                 dcls = data
